@@ -20,7 +20,7 @@ class ProtoSuite:
 
     def execute(self, workdir, tag="pt"):
         impl = lib.run_sharded(lib.RVH, "proto", self.cases, workdir, tag + "i",
-                               extra_env={"RVH_CASE_TIMEOUT": "600"})
+                               extra_env={"RVH_CASE_TIMEOUT": "240"})
         mcases = []
         for c in self.cases:
             cid = c.split(" ", 1)[0]
